@@ -108,7 +108,7 @@ pub axiom fn ax_rv_inf() ensures rv(finf()) > 0real, rv(fneginf()) < 0real, rv(f
                  rules=["R3", "R1", "R9", "R12", "R13", "R10"],
                  sig_subst=[(r"fn regret_match<R: \?Sized>\(&self, cum_reg: &mut R, strat: &mut \[f64\]\)\s*where\s*for<'a> &'a mut R: IntoFloatsMut<'a>,",
                              "fn regret_match(&self, cum_reg: &mut [f64], strat: &mut [f64])", "TYPE-SUBST R := [f64]")],
-                 table=[(r"^let norm: f64 = cum_reg \.into_floats_mut\(\) \.map\(\|&mut v\| v\) \.filter\(\|v\| v > &0\.0\) \.sum\(\);$", ("abstract", "let norm: f64 = __abs_pos_sum(cum_reg);"))],
+                 table=[(r"^let norm: f64 = cum_reg \.into_floats_mut\(\) \.map\(\|&mut v\| v\) \.filter\(\|v\| [^|;]*\) \.sum\(\);$", ("abstract", "let norm: f64 = __abs_pos_sum(cum_reg);"))],
                  body_subst=[(r"\(&mut reg, val\)(?= in cum_reg\.into_floats_mut\(\)\.zip\(strat\.iter_mut\(\)\) \{\s*\*val = if )", "(reg__r, val)", "for-pattern `&mut reg` (copy of a Copy element)"),
                              (r"(?<=\(&mut reg, val\) in )cum_reg\.into_floats_mut\(\)(?=\.zip\(strat\.iter_mut\(\)\) \{\s*\*val = if )", "cum_reg.iter_mut()", "TYPE-SUBST <&mut [f64] as IntoFloatsMut>::into_floats_mut is iter_mut"),
                              (r"let \(ind, _\) = cum_reg\s*\.into_floats_mut\(\)\s*\.enumerate\(\)\s*\.max_by\(\|\(_, l\), \(_, r\)\| l\.partial_cmp\(r\)\.unwrap\(\)\)\s*\.unwrap\(\);", "let ind = __abs_argmax(cum_reg);", "R6 argmax chain"),
@@ -157,5 +157,20 @@ ensures
     assert(pos_sum(c0, n as int) / rv(norm) == 1real) by(nonlinear_arith) requires rv(norm) == pos_sum(c0, n as int), rv(norm) > 0real;
 }""")}),
         ]),
+        # the predicate handed to the abstracted norm chain: what is summed into the normaliser
+        dict(raw="""pub axiom fn ax_ref_cmp_f64()
+    ensures <&f64 as PartialOrdSpec<&f64>>::obeys_partial_cmp_spec(),
+        forall|a: &f64, b: &f64| #[trigger] <&f64 as PartialOrdSpec<&f64>>::partial_cmp_spec(&a, &b) == fcmp(*a, *b);
+"""),
+        dict(file="src/solve/data.rs", path="impl RegretParams / fn regret_match", closure=0, expr_closure=True,
+             header_re=r"^\|v\|$", as_fn="regret_match__counts_towards_norm",
+             params="v: &f64", ret="out", ret_type="bool",
+             obligation="C08.V.regret_match.norm_over_positive", rules=[],
+             entry="broadcast use fl;\nproof { ax_obeys(); ax_ref_cmp_f64(); }",
+             contract="""ensures
+    // the normaliser sums every strictly positive regret and nothing negative (whether zeros are
+    // included makes no difference to a sum)
+    fgt(*v, 0.0f64) ==> out, // @ob C08.V.regret_match.norm_over_positive
+    out ==> fge(*v, 0.0f64), // @ob C08.V.regret_match.norm_over_positive"""),
     ],
 )
